@@ -249,11 +249,41 @@ func evalChain(args []string) string {
 		return "bad-op"
 	}
 	of := strings.Split(args[1], ",")
-	if len(of) != 3 {
+	if len(of) != 3 && len(of) != 4 {
 		return "bad-op"
 	}
-	now, _ := strconv.Atoi(of[0])
-	opts := x509.VerifyOptions{Roots: roots, Intermediates: inters, CurrentTime: baseTime.Add(time.Duration(now) * time.Hour)}
+	// time: hours, optionally ".<nanoseconds>" (may be negative) on top
+	tf := strings.SplitN(of[0], ".", 2)
+	now, _ := strconv.Atoi(tf[0])
+	at := baseTime.Add(time.Duration(now) * time.Hour)
+	if len(tf) == 2 {
+		ns, err := strconv.Atoi(tf[1])
+		if err != nil {
+			return "bad-op"
+		}
+		at = at.Add(time.Duration(ns))
+	}
+	if len(of) == 4 {
+		// "f": after the leaf, a FORGED copy of it (same signed bytes, last signature byte changed) is verified
+		// against the same pool objects: what one verification leaves behind in a pool must not help the next
+		if of[3] != "f" {
+			return "bad-op"
+		}
+		first := verifyChainOnce(leaf, roots, inters, at, of, ids)
+		fd := append([]byte{}, leaf.Raw...)
+		fd[len(fd)-1] ^= 0x01
+		forged, err := x509.ParseCertificate(fd)
+		if err != nil {
+			return first + " // unparsable"
+		}
+		ids[string(forged.Raw)] = ids[string(leaf.Raw)] + 700
+		return first + " // " + verifyChainOnce(forged, roots, inters, at, of, ids)
+	}
+	return verifyChainOnce(leaf, roots, inters, at, of, ids)
+}
+
+func verifyChainOnce(leaf *x509.Certificate, roots, inters *x509.CertPool, at time.Time, of []string, ids map[string]int) string {
+	opts := x509.VerifyOptions{Roots: roots, Intermediates: inters, CurrentTime: at}
 	if of[1] != "-" {
 		opts.DNSName = of[1]
 	}
@@ -540,7 +570,16 @@ func genC10(r *rng, tier string, emit func(string)) {
 			usages = "3"
 		}
 		now := r.pick([]int{0, 0, 0, 0, 0, 0, 0, 0, 0, 0, -150, 150, -100, 100})
-		emit(fmt.Sprintf("chain %s %d,%s,%s", strings.Join(cs, ";"), now, host, usages))
+		nowS := strconv.Itoa(now)
+		if r.chance(1, 6) { // the instants around a validity boundary of some certificate, to the nanosecond
+			c := certs[r.intn(len(certs))]
+			nowS = fmt.Sprintf("%d.%d", r.pick([]int{c.na, c.na, c.nb}), r.pick([]int{1, 999999999, 500000000, -1, 0, 1000000000}))
+		}
+		extra := ""
+		if r.chance(1, 5) {
+			extra = ",f"
+		}
+		emit(fmt.Sprintf("chain %s %s,%s,%s%s", strings.Join(cs, ";"), nowS, host, usages, extra))
 	}
 }
 
